@@ -64,9 +64,10 @@ Definition up_dims f (d : db) := mkdb (ds d) (loc d) (recs d) (trash d) (tags d)
 Definition up_xf f (d : db) := mkdb (ds d) (loc d) (recs d) (trash d) (tags d) (certs d) (dims d) (f (xf d)).
 Definition on_cur (f : db -> db) (s : st) : st := set_cur (f (cur s)) s.
 
-(* the four repairs, switchable so that "reverting a fix breaks a theorem" can be stated *)
-Record cfg := mkcfg { fix_ptr : bool; fix_sp : bool; fix_dc : bool; fix_et : bool }.
-Definition shipped := mkcfg true true true true.
+(* the repairs (the fifth: 2da36a1, FileDatastore refuses the ingest of a dataset it already holds before any file is
+   transferred), switchable so that "reverting a fix breaks a theorem" can be stated *)
+Record cfg := mkcfg { fix_ptr : bool; fix_sp : bool; fix_dc : bool; fix_et : bool; fix_ri : bool }.
+Definition shipped := mkcfg true true true true true.
 
 (* ------------------------------------------------------------------------------------------------------ *)
 Inductive outcome := Normal | Raised (h : bool).      (* h = true: BaseException *)
@@ -203,12 +204,18 @@ Definition transfer (m : mode) (d : N) : act := fun s =>
       end
   end.
 
+(* FileDatastore._refuse_datasets_already_stored at the top of _finishIngest (2da36a1): dataset_location rows (bridge.check) and
+   file_datastore_records rows are looked up -- two SELECTs, one boundary here -- and the ingest is refused with
+   ConflictingDefinitionError if any exist: inside the datastore transaction, BEFORE any file is touched or undo registered *)
+Definition held (d : N) (s : st) : bool := mem d (loc (cur s)) || mem d (recs (cur s)).
+Definition refuse_held (c : cfg) (d : N) : act := if fix_ri c then ev (guard (fun s => negb (held d s))) else ret.
+
 Definition do_ingest (c : cfg) (m : mode) (d : N) : act :=
   butler_txn c (
     load_dc ;;                                                                        (* data ID expansion loads the cache *)
     ev (guard (fun s => negb (has_ds d s))) ;; upd (on_cur (up_ds (add d))) ;;      (* registry._importDatasets *)
     guard (fun s => match fget d (ext s) with Some _ => true | None => false end) ;; (* _prepIngest existence check *)
-    with_ds c (transfer m d ;; ev (stored_rows d))).                                  (* _finishIngest *)
+    with_ds c (refuse_held c d ;; transfer m d ;; ev (stored_rows d))).               (* _finishIngest *)
 
 (* Datastore.trash([ref]): bridge.moveToTrash inside an (often no-op) nested transaction; errors swallowed *)
 Definition do_trash (c : cfg) (d : N) : act :=
@@ -272,13 +279,15 @@ Definition do_transfer (c : cfg) (d : N) : act :=
    registry._importDatasets as for transfer_from (same dataset id = no-op, same data ID under another id = conflict);
    then FileDatastore.ingest (@transactional): the artifact is copied to a temporary name and renamed into place -- an
    existing file is overwritten --, the undo is registered, and INSERT dataset_location / file_datastore_records FAIL when
-   the dataset is already located / recorded: the rollback then deletes the artifact that was there before. *)
+   the dataset is already located / recorded: the rollback then deleted the artifact that was there before -- until 2da36a1
+   (refuse_held: the re-import is now refused before any file is touched; the old behaviour is the variant fix_ri = false). *)
 Definition do_import (c : cfg) (d : N) : act :=
   butler_txn c (
     load_dc ;;
     ev (guard (fun s => negb (has_ds d s) || mem d (xf (cur s)))) ;;
     upd (on_cur (fun x => up_xf (add d) (up_ds (add d) x))) ;;
-    with_ds c (ev ret ;; ev (upd (fun s => set_fs (fset d (src_content d) (fs s)) s)) ;; reg_undo (URm d) ;; ev ret ;;
+    with_ds c (refuse_held c d ;;
+               ev ret ;; ev (upd (fun s => set_fs (fset d (src_content d) (fs s)) s)) ;; reg_undo (URm d) ;; ev ret ;;
                ev (guard (fun s => negb (mem d (loc (cur s))) && negb (mem d (recs (cur s)))) ;; stored_rows d))).
 
 Definition exec_op (c : cfg) (o : op) : act :=
